@@ -53,7 +53,7 @@ class Calls:
         args = []
         for a in node.args:
             if isinstance(a, ast.Starred):
-                v = ex.eval(a.value, env)
+                v = ex.force(ex.eval(a.value, env))
                 if isinstance(v, tuple):
                     args.extend(v)
                 else:
